@@ -198,6 +198,7 @@ func (ex *Exec) indexByte(b []value, c value) int {
 
 func registerStubs(e *Engine) {
 	registerSymAPI(e)
+	registerRedirects(e)
 	registerStoreStubs(e)
 	registerNumStubs(e)
 	registerProtoStubs(e)
@@ -568,6 +569,9 @@ func registerStubs(e *Engine) {
 	registerConcStubs(e)
 	e.reg("(time.Duration).String", func(fr *frame, args []value) value { return "0s" })
 	e.reg("(time.Duration).Seconds", func(fr *frame, args []value) value { return float64(0) })
+	e.reg("(time.Duration).Milliseconds", func(fr *frame, args []value) value { return int64(0) })
+	e.reg("(time.Duration).Microseconds", func(fr *frame, args []value) value { return int64(0) })
+	e.reg("(time.Duration).Nanoseconds", func(fr *frame, args []value) value { return int64(0) })
 	registerContextStubs(e)
 
 	// ---- regexp (concrete subjects only) ----
@@ -672,6 +676,7 @@ func registerStubs(e *Engine) {
 		"go.opentelemetry.io/otel", "(go.opentelemetry.io/otel", "(*go.opentelemetry.io/otel",
 		"github.com/streamingfast/logging/zapx.",
 		"github.com/streamingfast/dmetering.", "(github.com/streamingfast/dmetering.", "(*github.com/streamingfast/dmetering.",
+		"github.com/streamingfast/dstore.With",
 		"github.com/prometheus/client_golang/prometheus.", "(*github.com/prometheus/client_golang/prometheus.", "(github.com/prometheus/client_golang/prometheus.",
 	} {
 		prefixStubs = append(prefixStubs, prefixStub{pfx, func(name string) externalFn {
@@ -695,6 +700,17 @@ func zeroOrOpaque(fn *ssa.Function) value { return envResults(fn.Signature) }
 // providers, ...) returned through interfaces by logging/metrics/tracing
 // stubs: every method call on them is again an environment no-op.
 var envObjType = newEngType("envObject", types.NewPointer(types.Typ[types.Int]), map[string]engMethod{})
+
+func envValue(t types.Type) value {
+	if _, ok := t.Underlying().(*types.Pointer); ok {
+		v := value(&opaque{kind: "env:" + t.String()})
+		return &v
+	}
+	if it, ok := t.Underlying().(*types.Interface); ok && !isErrorIface(it) && it.NumMethods() > 0 {
+		return iface{t: envObjType.named, v: &opaque{kind: "env:" + t.String()}}
+	}
+	return zero(t)
+}
 
 func envResults(sig *types.Signature) value {
 	res := sig.Results()
